@@ -90,6 +90,13 @@ CHECKS = {
         "note": "break_equivalences_annotated_formula and Assembled::decompose are stand-ins with assumed contracts; ExternalEquivalenceTask::decompose not verified; D19.",
         "technique": "contract-based deductive verification (Verus) of mechanically extracted real code",
     },
+    "C08": {
+        "text": "Partial: regularity predicates, p2f/p2f_int_term (with the lemma that translated regular terms denote exactly their mini-gringo value on integer assignments) and the rule-by-rule fallback structure of mu are proved on the real code; "
+                "rule-level HT-equivalence of natural with tau* is not decided.",
+        "design_ref": "DESIGN.md §5 C08",
+        "note": "natural_rule/tau_star_rule are stand-ins inside mu; int_variables, head interval handling and natural_comparison not verified; D20 eta-expansion.",
+        "technique": "contract-based deductive verification (Verus) of mechanically extracted real code",
+    },
     "C09": {
         "text": "Only the uniqueness-of-formula-names clause is decided by a Verus proof on the real create_unique_formula_names (and add_theory's ordering); the declaration/typing clauses exist only as fmt output and are not covered.",
         "design_ref": "DESIGN.md §5 C09, §6",
@@ -97,9 +104,10 @@ CHECKS = {
         "technique": "contract-based deductive verification (Verus) of mechanically extracted real code",
     },
     "C01": {
-        "text": "In progress: fresh-name selection (choose_fresh_variable_names) proved on the real code: the names returned are pairwise distinct, disjoint from the names of the given variables, of the requested number; the search terminates and cannot overflow (pigeonhole argument).",
+        "text": "Partial, deep: the val_t(Z) layer — val, the four construct_* functions and choose_fresh_variable_names — is proved on the real code against the mini-gringo term semantics for all terms, interpretations and assignments "
+                "(unbounded, incl. fresh-name collisions and termination). The literal/rule layers and the stable-model step are not under contract.",
         "design_ref": "DESIGN.md §5 C01",
-        "note": "val/tau_b/rule layers not yet under contract.",
+        "note": "division convention is an assumption of the spec (positive divisor, floor); tau_b*/rule layers not verified; stable = equilibrium from the literature.",
         "technique": "contract-based deductive verification (Verus) of mechanically extracted real code",
     },
 }
